@@ -627,6 +627,25 @@ impl Property for C06 {
                         log.push(format!("reg#{}:refused", i));
                     }
                 }
+                6..=7 if src.chance(20) => {
+                    // a never-registered collector whose descriptors are those of #i plus 3-90 others that nobody registered: it is not a
+                    // registered collector whatever #i is, so unregister fails and (checked below, like after every call) nothing changes
+                    let mut sup = specs.clone();
+                    let extra = if src.chance(128) { 3 + src.below(8) } else { 62 + src.below(30) };
+                    for k in 0..extra {
+                        sup.push(DSpec { name: format!("never_registered_{}", k), help: "h".into(), consts: BTreeMap::new(), vars: BTreeSet::new(), rev: false });
+                    }
+                    let big = Custom { descs: sup.iter().map(|s| s.desc()).collect(), specs: sup, tag: 0.0 };
+                    let r = reg.unregister(Box::new(big));
+                    ensure!(
+                        r.is_err(),
+                        "unregister-wrong-result",
+                        "step {}: unregister of a never-registered collector (the {} descriptors of #{} plus {} unregistered ones) returned Ok; history: {}",
+                        step, specs.len(), i, extra, log.join(" ")
+                    );
+                    rep.class("unregister-of-a-never-registered-superset");
+                    log.push(format!("unreg(superset of #{} +{}):err", i, extra));
+                }
                 6..=7 => {
                     let r = reg.unregister(c.boxed());
                     let want_ok = model.registered.contains_key(&idset);
